@@ -161,7 +161,113 @@ fn gen_cases(rng: &mut Rng, tier: Tier) -> Vec<Value> {
         .collect::<Vec<_>>()
         .into_iter()
         .chain(history_cases(rng, tier))
+        .chain(merge_init_cases())
         .collect()
+}
+
+/// deterministic cases (regression of S62 and a family around it): a FEASIBLE initial solution whose first tour visits a reload of
+/// a shared resource (res0: `a` units drawn there, `c` more by a second tour) and later a plain reload or a reload of another
+/// resource (`b` units) is handed to the solver with zero generations. The vehicle can carry both intervals at once (a + b <= C),
+/// so the clean-up of trivial reloads is tempted to drop the second reload - which moves its deliveries onto res0. Case 0 is the
+/// witness found on the unchanged tree (C 6, res0 5, a 1+4, b 1); the others vary capacities and amounts with a fixed stream of
+/// their own (the campaign's random stream is not touched)
+fn merge_init_cases() -> Vec<Value> {
+    let mut x: u64 = 0x9E3779B97F4A7C15;
+    let mut next = |m: u64| {
+        x = x.wrapping_mul(6364136223846793005).wrapping_add(1442695040888963407);
+        (x >> 33) % m
+    };
+    let mut out = vec![merge_init_case(6, 5, 2, 5, 1, 0, false)];
+    for _ in 0..23 {
+        let cap = 4 + next(6) as i64;
+        let a = 1 + next((cap - 1) as u64) as i64;
+        let b = 1 + next((cap - a) as u64) as i64;
+        let c = next(3) as i64;
+        let res = a + c + [0, 1, b - 1, b][next(4) as usize].max(0);
+        let d0 = if next(2) == 0 { cap - a + 1 } else { 1 + next(cap as u64) as i64 };
+        out.push(merge_init_case(cap, res, d0.min(cap), a, b, c, next(3) == 0));
+    }
+    out
+}
+
+fn merge_init_case(cap: i64, res: i64, d0: i64, a: i64, b: i64, c: i64, right_shared: bool) -> Value {
+    // every location index up to the largest one has to be used (E1504)
+    let n = if c > 0 { 9usize } else { 7 };
+    let m: Vec<i64> = (0..n * n).map(|k| ((k / n) as i64 - (k % n) as i64).abs() * 10).collect();
+    let job = |id: &str, loc: usize, d: i64| SJob {
+        id: id.to_string(),
+        tasks: vec![STask { kind: "delivery".into(), places: vec![SPlace { loc, dur: 10, tws: vec![], tag: None, resource: None }], demand: vec![d], order: None }],
+        ..SJob::default()
+    };
+    // the second tour carries a job from the depot that does not fit together with `c`: its reload is needed
+    let d1 = cap - c + 1;
+    let (a1, a2) = if a >= 2 { (a / 2, a - a / 2) } else { (a, 0) };
+    let mut jobs = vec![job("p0", 1, d0), job("a1", 3, a1), job("b1", 6, b)];
+    if a2 > 0 {
+        jobs.push(job("a2", 4, a2));
+    }
+    if c > 0 {
+        jobs.push(job("c1", 7, c));
+        jobs.push(job("p1", 8, d1));
+    }
+    let mut resources = vec![("res0".to_string(), vec![res])];
+    if right_shared {
+        resources.push(("res1".to_string(), vec![b]));
+    }
+    let sp = SProblem {
+        n,
+        profiles: vec![SProfile { name: "car".into(), dur: m.clone(), dist: m }],
+        jobs,
+        vehicles: vec![SVehicleType {
+            type_id: "t".into(),
+            ids: vec!["v1".into(), "v2".into()],
+            profile: 0,
+            scale: None,
+            fixed: 10,
+            cd: 1,
+            ct: 1,
+            shifts: vec![SShift {
+                start_earliest: 0,
+                start_latest: None,
+                start_loc: 0,
+                end: Some(SShiftEnd { earliest: None, latest: 80000, loc: 0 }),
+                breaks: vec![],
+                reloads: vec![
+                    SPlace { loc: 5, dur: 10, tws: vec![], tag: Some("rl0".into()), resource: if right_shared { Some("res1".into()) } else { None } },
+                    SPlace { loc: 2, dur: 10, tws: vec![], tag: Some("rl1".into()), resource: Some("res0".into()) },
+                ],
+            }],
+            capacity: vec![cap],
+            skills: vec![],
+            max_distance: None,
+            max_duration: None,
+            tour_size: None,
+        }],
+        resources,
+        ..SProblem::default()
+    };
+    let stat = json!({"cost": 0, "distance": 0, "duration": 0, "times": {"driving": 0, "serving": 0, "waiting": 0, "break": 0, "commuting": 0, "parking": 0}});
+    let stop = |loc: usize, id: &str, kind: &str, tag: Option<&str>, load: i64| {
+        let mut act = json!({"jobId": id, "type": kind});
+        if let Some(t) = tag {
+            act["jobTag"] = json!(t);
+        }
+        json!({"location": {"index": loc}, "time": {"arrival": ts(0), "departure": ts(0)}, "distance": 0, "load": [load], "activities": [act]})
+    };
+    let mut first = vec![stop(0, "departure", "departure", None, d0), stop(1, "p0", "delivery", None, 0), stop(2, "reload", "reload", Some("rl1"), a), stop(3, "a1", "delivery", None, a2)];
+    if a2 > 0 {
+        first.push(stop(4, "a2", "delivery", None, 0));
+    }
+    first.extend([stop(5, "reload", "reload", Some("rl0"), b), stop(6, "b1", "delivery", None, 0), stop(0, "arrival", "arrival", None, 0)]);
+    let mut tours = vec![json!({"vehicleId": "v1", "typeId": "t", "shiftIndex": 0, "statistic": stat, "stops": first})];
+    if c > 0 {
+        tours.push(json!({"vehicleId": "v2", "typeId": "t", "shiftIndex": 0, "statistic": stat, "stops": [
+            stop(0, "departure", "departure", None, d1), stop(8, "p1", "delivery", None, 0), stop(2, "reload", "reload", Some("rl1"), c), stop(7, "c1", "delivery", None, 0),
+            stop(0, "arrival", "arrival", None, 0)]}));
+    }
+    let init = json!({"statistic": stat, "unassigned": [], "tours": tours});
+    json!({"k": "merge_init", "sp": sp, "row": 0, "gens": 0, "relations": false, "init_doc": init,
+           "params": {"capacity": cap, "res0": res, "depot": d0, "a": a, "b": b, "c": c, "right_shared": right_shared}})
 }
 
 /// operator histories of C04 (three independent batches of its generator), in this order of preference: explicit objectives
@@ -279,6 +385,9 @@ fn exec(case: &Value) -> Value {
         Err(codes) => return json!({"error": format!("generated problem is invalid: {codes:?}"), "sp_final": sp_final}),
     };
     // thread count of the ambient pool is irrelevant: the config creates its own pools
+    if case["k"] == "merge_init" {
+        init_doc = Some(case["init_doc"].clone());
+    }
     if case["k"] == "init" && init_doc.is_none() {
         return json!({"error": "generated problem is invalid: no relation job to leave unassigned", "sp_final": sp_final});
     }
